@@ -15,6 +15,7 @@ echo "| change | repo suite | reported by (quick tier) | shortest counterexample
 echo "|---|---|---|---|" >> "$out"
 for patch in "$@"; do
   name=$(basename "$patch" .diff)
+  [ "$name" = "patch" ] && name=$(basename "$(dirname "$patch")")
   rev=""
   case "$name" in revert-*) rev="-R";; esac
   if ! git -C /repo apply $rev "$(realpath "$patch")" 2>/dev/null; then
